@@ -2,7 +2,7 @@
 from common import *
 import itertools
 
-THEOREMS = ['lexCmp_eq_spec', 'lexCompare_eq_iff', 'eq_iff_content', 'cmp_content', 'eqSlice_content', 'cmpSlice_content', 'len_content', 'hash_content', 'hashFeed_content']
+THEOREMS = ['lexCmp_eq_spec', 'lexCompare_eq_iff', 'eq_iff_content', 'cmp_content', 'eqSlice_content', 'cmpSlice_content', 'len_content', 'hash_content', 'hashFeed_content', 'lexCompare_swap', 'lexCompare_trans_lt', 'cmp_swap', 'cmp_trans', 'cmp_eq_iff_eq']
 RULE = ("contents over a 3-letter alphabet of length 0-4 under ALL segmentations into <= 3 segments (empty segments allowed), realised as "
         "real BER encodings (primitive, flat definite, flat indefinite, nested, empty constructed), all pairs of a pool; plus random longer "
         "contents with random nestings; each compared with ==, cmp, partial_cmp, hash, and against plain slices (os.cmps); restricted "
@@ -84,5 +84,5 @@ def nontrivial(req, ans):
     return ans.startswith("ok")
 
 LEVEL = "proof"
-LEVEL_TEXT = 'Lean 4 theorems for ALL values the decoder can produce (any segmentation/nesting): ==, cmp, ==/partial_cmp with a slice and the hasher feed are functions of the content octet sequence alone (eq_iff_content, cmp_content = reference lexicographic order, eqSlice_content, cmpSlice_content, hash_content), and the order is equality exactly on equal contents (lexCompare_eq_iff). Correspondence: all segmentations of short contents as real BER encodings, 200k pairs, against the model and a grammar-based reference.'
+LEVEL_TEXT = 'Lean 4 theorems for ALL values the decoder can produce (any segmentation/nesting): ==, cmp, ==/partial_cmp with a slice and the hasher feed are functions of the content octet sequence alone (eq_iff_content, cmp_content = reference lexicographic order, eqSlice_content, cmpSlice_content, hash_content), and the order is equality exactly on equal contents (lexCompare_eq_iff); Ord is a lawful total order whatever the segmentation of the operands: cmp b a is the reverse of cmp a b, Less is transitive, Equal exactly where == holds (cmp_swap, cmp_trans, cmp_eq_iff_eq). Correspondence: all segmentations of short contents as real BER encodings, 200k pairs, against the model and a grammar-based reference.'
 LEVEL_NOTE = "Trusted: Lean 4.33 kernel; axioms propext, Classical.choice, Quot.sound only; the hand-written model (lean/Bcder/Model) tied to /repo on every run by differential correspondence (tools/check.py, harness/, lean/Driver.lean); reference definitions lean/Bcder/Spec. The Hasher itself is not modelled (only what is fed to it); RestrictedString delegates to OctetString (same impls). That OS.octets is the concatenation of the primitive segments is C16's statement."
